@@ -1130,11 +1130,12 @@ func zipInnerSubscription[T any](subscriberCtx context.Context, obs Observable[T
 					if len(*values) == 0 {
 						mu.Unlock()
 						destination.CompleteWithContext(ctx)
+						subscriptions.Unsubscribe()
 					} else {
+						// Values of this source are still queued: the other sources must
+						// stay subscribed until the queue is drained (see onUpdate).
 						mu.Unlock()
 					}
-
-					subscriptions.Unsubscribe()
 				},
 			),
 		),
